@@ -426,6 +426,10 @@ impl<R: RefCounter, PR: PathRefCounter, H: Header> Memory<R, PR, H> {
             ptr::write_bytes(ptr.add(allocated), 0, cap - allocated as usize);
           }
 
+          // a process killed between marking a segment as removed and unlinking it leaves the
+          // marked node in the free list; nobody is left to finish that removal, so do it now.
+          unlink_removed_segments(ptr, header_ptr_offset, cap);
+
           (CURRENT_VERSION, magic_version)
         };
 
@@ -1075,6 +1079,40 @@ impl<R: RefCounter, PR: PathRefCounter, H: Header> Memory<R, PR, H> {
         }
         _ => {}
       }
+    }
+  }
+}
+
+/// Bypasses every free-list node whose size half is 0 ("being removed").
+///
+/// The sentinel word `(size << 32) | next_offset` is the first field of both header layouts and a
+/// node is the same word at `next_offset`.  The bytes of a bypassed segment are lost (the mark
+/// destroyed its size), which is what would have happened had the interrupted removal completed
+/// and its owner died right after.
+///
+/// ## Safety
+/// `[ptr, ptr + cap)` must be writable and `header_ptr_offset` the offset of the header inside it.
+#[cfg(all(feature = "memmap", not(target_family = "wasm")))]
+unsafe fn unlink_removed_segments(ptr: *mut u8, header_ptr_offset: usize, cap: usize) {
+  unsafe {
+    let mut prev = ptr.add(header_ptr_offset).cast::<u64>();
+    let mut steps = 0;
+    while steps <= cap / 8 {
+      let (_, next) = decode_segment_node(prev.read());
+      let next = next as usize;
+      if next == SENTINEL_SEGMENT_NODE_OFFSET as usize || next % 8 != 0 || next + 8 > cap {
+        break;
+      }
+
+      let node = ptr.add(next).cast::<u64>();
+      let (node_size, node_next) = decode_segment_node(node.read());
+      if node_size == 0 {
+        let (prev_size, _) = decode_segment_node(prev.read());
+        prev.write(encode_segment_node(prev_size, node_next));
+      } else {
+        prev = node;
+      }
+      steps += 1;
     }
   }
 }
